@@ -22,10 +22,14 @@ import (
 func init() {
 	// saves what expressions can see of URNs into results, so that later steps read them back
 	world.ActionSets["saveurn"] = func(f, i int) []any {
+		// one result per context area: a failing lookup (no parent, no child, no input) only loses its own result
 		return []any{
 			world.J{"uuid": world.ActUUID(f, i, 0), "type": "set_run_result", "name": "Seen",
-				"value": "@urns.tel|@contact.urn|@(format_urn(contact.urn))|@contact|@input.urn|@parent.urns.tel|@parent.contact.urn|@child.contact.urn|@(urn_parts(contact.urn).path)"},
-			world.J{"uuid": world.ActUUID(f, i, 1), "type": "send_msg", "text": "@contact @contact.urns @urns @(json(contact)) @(json(urns)) @(json(input)) @(json(parent)) @(json(trigger))"},
+				"value": "@urns.tel|@contact.urn|@(format_urn(contact.urn))|@contact|@(urn_parts(contact.urn).path)"},
+			world.J{"uuid": world.ActUUID(f, i, 2), "type": "set_run_result", "name": "Seen Input", "value": "@input.urn"},
+			world.J{"uuid": world.ActUUID(f, i, 3), "type": "set_run_result", "name": "Seen Parent", "value": "@parent.urns.tel|@parent.contact.urn"},
+			world.J{"uuid": world.ActUUID(f, i, 4), "type": "set_run_result", "name": "Seen Child", "value": "@child.contact.urn|@child.urns.tel"},
+			world.J{"uuid": world.ActUUID(f, i, 1), "type": "send_msg", "text": "@contact @contact.urn @contact.urns @urns @(json(urns)) @(json(input)) @parent.urns @parent.contact.urn @(json(trigger))"},
 		}
 	}
 	world.ActionSets["chan"] = func(f, i int) []any {
@@ -65,6 +69,7 @@ type rootSpec struct {
 	Trigger  string        `json:"trigger"`
 	Policy   string        `json:"policy"`
 	Nameless bool          `json:"nameless"`
+	NoID     bool          `json:"no_id"`            // the contact has no id (unsaved / simulator contacts)
 	Pinned   bool          `json:"pinned"`           // the contact's tel URN is already pinned to a channel
 	MsgOther bool          `json:"msg_other_scheme"` // messages arrive from the contact's twitterid URN instead of tel
 }
@@ -81,6 +86,9 @@ func (rs *rootSpec) world(t twin) *world.Root {
 	if rs.Nameless {
 		delete(contact, "name")
 	}
+	if rs.NoID {
+		delete(contact, "id")
+	}
 	parent := world.ParentSummary()
 	parent["contact"].(world.J)["urns"] = []any{t.parentTel}
 	refreshed := world.RefreshedContact()
@@ -95,7 +103,7 @@ func (rs *rootSpec) world(t twin) *world.Root {
 }
 
 func (rs *rootSpec) String() string {
-	return fmt.Sprintf("%s | trigger=%s policy=%s nameless=%v pinned=%v msg-other-scheme=%v", rs.Flows.String(), rs.Trigger, rs.Policy, rs.Nameless, rs.Pinned, rs.MsgOther)
+	return fmt.Sprintf("%s | trigger=%s policy=%s nameless=%v no-id=%v pinned=%v msg-other-scheme=%v", rs.Flows.String(), rs.Trigger, rs.Policy, rs.Nameless, rs.NoID, rs.Pinned, rs.MsgOther)
 }
 
 type replay struct {
@@ -128,6 +136,7 @@ func specs(tier string) []rootSpec {
 			}
 		}
 		out = append(out, rootSpec{Flows: fs, Trigger: "msg", Policy: "urns", Nameless: true})
+		out = append(out, rootSpec{Flows: fs, Trigger: "manual", Policy: "urns", Nameless: true, NoID: true})
 		out = append(out, rootSpec{Flows: fs, Trigger: "manual", Policy: "urns", Pinned: true})
 		out = append(out, rootSpec{Flows: fs, Trigger: "msg", Policy: "urns", MsgOther: true})
 	}
@@ -199,6 +208,35 @@ func sourceClass(p string) string {
 	return strings.TrimPrefix(p, ".")
 }
 
+// templateOutputs lists what templates produced in the last sprint: message texts and quick replies
+// and saved result values (the msg's own urn field is routing data, not template output).
+func templateOutputs(x *world.Exec) []string {
+	var out []string
+	for _, e := range x.Sprint.Events() {
+		b, _ := json.Marshal(e)
+		var ev map[string]any
+		json.Unmarshal(b, &ev)
+		switch ev["type"] {
+		case "msg_created":
+			if m, ok := ev["msg"].(map[string]any); ok {
+				out = append(out, fmt.Sprintf("msg_created.text=%v", m["text"]))
+			}
+		case "run_result_changed":
+			out = append(out, fmt.Sprintf("run_result_changed.value=%v|%v", ev["name"], ev["value"]))
+		case "error":
+			out = append(out, fmt.Sprintf("error.text=%v", ev["text"]))
+		}
+	}
+	return out
+}
+
+func trunc(s string, n int) string {
+	if len(s) > n {
+		return s[:n] + "…"
+	}
+	return s
+}
+
 var corpusFuncs []string
 
 func corpus() []string {
@@ -242,7 +280,11 @@ func judge(c *mc.Ctx, rs *rootSpec, hist []world.Step, doCorpus bool, count bool
 		return ps
 	}
 	la, lb := leaves(xs[0]), leaves(xs[1])
-	redacted := rs.Policy == "urns"
+	// the policy in force is the one of the session's CURRENT environment (a resume may have changed it)
+	redacted := xs[0].Session.Environment().RedactionPolicy() == envs.RedactionPolicyURNs
+	if redacted != (xs[1].Session.Environment().RedactionPolicy() == envs.RedactionPolicyURNs) {
+		add("twins-diverge:redaction-policy", "the twins report different redaction policies")
+	}
 	differs := 0
 	firstDiff := ""
 	ctxSources := map[string]bool{} // sources of difference the context walk already reported
@@ -259,6 +301,15 @@ func judge(c *mc.Ctx, rs *rootSpec, hist []world.Step, doCorpus bool, count bool
 					firstDiff = "shape:" + la[i].Path
 				}
 			}
+			if cl := sourceClass(la[i].Path); redacted && rs.Policy == "none" && (strings.HasPrefix(cl, "results(") || strings.HasPrefix(cl, "rendering-of-ancestor")) {
+				// the policy was switched on mid-session: a result saved BEFORE the switch legitimately
+				// holds what expressions could see then; what templates produce AFTER the switch is
+				// compared directly below (sprint outputs)
+				if count {
+					c.Inc("stale_results_not_judged")
+				}
+				continue
+			}
 			if redacted {
 				ctxSources[sourceClass(la[i].Path)] = true
 				add("context-depends-on-urn:"+sourceClass(la[i].Path), "under redaction the context differs between twins at %s:\n  twin A: %s\n  twin B: %s", la[i].Path, la[i].Value, lb[i].Value)
@@ -269,6 +320,24 @@ func judge(c *mc.Ctx, rs *rootSpec, hist []world.Step, doCorpus bool, count bool
 		differs++
 		if redacted {
 			add("context-shape-depends-on-urn", "under redaction the context trees have different sizes: %d vs %d leaves", len(la), len(lb))
+		}
+	}
+	// what the templates of the LAST sprint produced (message texts, saved result values) must be
+	// identical for the twins when the policy was in force during that sprint
+	if redacted && xs[0].Sprint != nil && xs[1].Sprint != nil {
+		oa, ob := templateOutputs(xs[0]), templateOutputs(xs[1])
+		if count {
+			c.Add("sprint_template_outputs_compared", int64(len(oa)))
+		}
+		for i := 0; i < len(oa) && i < len(ob); i++ {
+			if oa[i] != ob[i] {
+				kind := strings.SplitN(oa[i], "=", 2)[0]
+				add("sprint-output-depends-on-urn:"+kind, "under redaction a template of the last sprint produced different output for the twins:\n  twin A: %s\n  twin B: %s", trunc(oa[i], 300), trunc(ob[i], 300))
+				break
+			}
+		}
+		if len(oa) != len(ob) {
+			add("sprint-output-depends-on-urn:count", "under redaction the twins' last sprints produced %d vs %d template outputs", len(oa), len(ob))
 		}
 	}
 	ea, eb := envFacts(xs[0].Session.MergedEnvironment()), envFacts(xs[1].Session.MergedEnvironment())
@@ -282,7 +351,10 @@ func judge(c *mc.Ctx, rs *rootSpec, hist []world.Step, doCorpus bool, count bool
 		} else if differs > 0 {
 			c.Fact("unredacted_twins_differ")
 		}
-		c.Outcome(fmt.Sprintf("policy=%s twins-differ=%v", rs.Policy, differs > 0))
+		c.Outcome(fmt.Sprintf("policy-in-force-redacts=%v twins-differ=%v", redacted, differs > 0))
+		if redacted && rs.Policy == "none" {
+			c.Fact("redaction_switched_on_by_a_resume")
+		}
 	}
 	if !redacted && differs == 0 && len(la) > 0 {
 		// without the policy expressions do see the URNs
@@ -295,8 +367,12 @@ func judge(c *mc.Ctx, rs *rootSpec, hist []world.Step, doCorpus bool, count bool
 				if count {
 					c.Fact("nameless_formatted")
 				}
-				if l.Value != "1234" {
-					add("nameless-contact-not-shown-by-id", "a contact without a name formats as %q under redaction, expected its id 1234", l.Value)
+				want := "1234"
+				if rs.NoID {
+					want = "0"
+				}
+				if l.Value != want {
+					add("nameless-contact-not-shown-by-id", "a contact without a name formats as %q under redaction, expected its id %s", l.Value, want)
 				}
 			}
 		}
@@ -373,7 +449,15 @@ func run(c *mc.Ctx) {
 		rs := &ss[i]
 		rootA := rs.world(twins[0])
 		nstates := 0
-		cfg := sm.Cfg{Ctx: c, Depth: depth, Events: []string{"msg:+12065550199", "refresh:a", "expire"}, Regimes: []bool{true}, ChoiceBound: 0}
+		events := []string{"msg:+12065550199", "refresh:a", "expire"}
+		regimes := []bool{true}
+		if rs.Policy == "none" && rs.Trigger == "manual" {
+			// the policy is switched on while the session waits, by a resume carrying the new
+			// environment: on the live object as well as on a restored one
+			events = append(events, "env:urns:a")
+			regimes = []bool{true, false}
+		}
+		cfg := sm.Cfg{Ctx: c, Depth: depth, Events: events, Regimes: regimes, ChoiceBound: 0}
 		cfg.OnNewState = func(t *sm.Trans) {
 			nstates++
 			// corpus layer: all states in the thorough tier, the start state of every 8th root in quick
@@ -505,7 +589,7 @@ func init() {
 		Budget:      map[string]time.Duration{"quick": 5 * time.Minute, "thorough": 25 * time.Minute},
 		Guards: func(r *mc.Result, tier string) []string {
 			var f []string
-			for _, fact := range []string{"redacted_state", "unredacted_twins_differ", "nameless_formatted", "queries_checked"} {
+			for _, fact := range []string{"redacted_state", "unredacted_twins_differ", "nameless_formatted", "queries_checked", "redaction_switched_on_by_a_resume"} {
 				if r.Facts[fact] == 0 {
 					f = append(f, "never observed: "+fact)
 				}
